@@ -610,7 +610,7 @@ class CooperativeAwarenessMessage:
         """
         heading_confidence = 126
         if epd <= 12.5:
-            heading_confidence = int(epd * 10)
+            heading_confidence = max(1, int(epd * 10))
         return heading_confidence
 
     def __str__(self) -> str:
